@@ -36,6 +36,44 @@ type c02Reader struct {
 }
 
 func c02Readers() []c02Reader {
+	nextO := func(mk func([]byte) io.Reader, opts ...carv2.Option) func([]byte) ([]refcar.Block, bool, error) {
+		return func(in []byte) ([]refcar.Block, bool, error) {
+			br, err := carv2.NewBlockReader(mk(in), opts...)
+			if err != nil {
+				return nil, false, err
+			}
+			var got []refcar.Block
+			for {
+				b, err := br.Next()
+				if err == io.EOF {
+					return got, true, nil
+				}
+				if err != nil {
+					return got, false, err
+				}
+				got = append(got, refcar.Block{Cid: b.Cid().Bytes(), Data: b.RawData()})
+			}
+		}
+	}
+	skipO := func(mk func([]byte) io.Reader, opts ...carv2.Option) func([]byte) ([]refcar.Block, bool, error) {
+		return func(in []byte) ([]refcar.Block, bool, error) {
+			br, err := carv2.NewBlockReader(mk(in), opts...)
+			if err != nil {
+				return nil, false, err
+			}
+			var got []refcar.Block
+			for {
+				m, err := br.SkipNext()
+				if err == io.EOF {
+					return got, true, nil
+				}
+				if err != nil {
+					return got, false, err
+				}
+				got = append(got, refcar.Block{Cid: m.Cid.Bytes()})
+			}
+		}
+	}
 	next := func(mk func([]byte) io.Reader) func([]byte) ([]refcar.Block, bool, error) {
 		return func(in []byte) ([]refcar.Block, bool, error) {
 			br, err := carv2.NewBlockReader(mk(in))
@@ -99,6 +137,20 @@ func c02Readers() []c02Reader {
 		{name: "v2.BlockReader.SkipNext(bufio.Reader)", run: skip(buffered)},
 		{name: "v2.BlockReader.SkipNext(bytes.Reader)", run: skip(seekable)},
 		{name: "v2.BlockReader.SkipNext(plain)", run: skip(plain)},
+		// the same readers with ZeroLengthSectionAsEOF on: the generated archives hold no zero-length
+		// section, so nothing about the expectations changes
+		{name: "v2.BlockReader.Next(plain,ZeroLengthSectionAsEOF)", hashes: true, returns: true, run: nextO(plain, carv2.ZeroLengthSectionAsEOF(true))},
+		{name: "v2.BlockReader.SkipNext(bytes.Reader,ZeroLengthSectionAsEOF)", run: skipO(seekable, carv2.ZeroLengthSectionAsEOF(true))},
+		{name: "v2.Reader.Inspect(true,ZeroLengthSectionAsEOF)", hashes: true, run: func(in []byte) ([]refcar.Block, bool, error) {
+			rd, err := carv2.NewReader(bytes.NewReader(in), carv2.ZeroLengthSectionAsEOF(true))
+			if err != nil {
+				return nil, false, err
+			}
+			if _, err = rd.Inspect(true); err != nil {
+				return nil, false, err
+			}
+			return nil, true, nil
+		}},
 		{name: "v2.Reader.Inspect(true)", hashes: true, run: inspect(true)},
 		{name: "v2.Reader.Inspect(false)", run: inspect(false)},
 		{name: "root.CarReader.Next", v1only: true, hashes: true, returns: true, run: func(in []byte) ([]refcar.Block, bool, error) {
@@ -513,7 +565,7 @@ func init() {
 	Register(&mon.Check{
 		ID:          "C02",
 		Level:       "exploration",
-		Rule:        "cases = (seeded small valid archive, container kind, mutation family); family cuts = EVERY proper prefix of the archive, family flips = every byte with one seeded bit (quick) or all 8 bits (thorough), family random = 200 random mutations (hash oracle only); plus archives holding one section of 1 MiB+4 KiB / 2 MiB-1 / 2 MiB / 3 MiB (3- and 4-byte length varints) with every offset outside that block and ~30 sampled offsets inside it; each mutated input goes through 10 scanning readers (v2 BlockReader.Next on 3 source kinds, SkipNext on 2, Inspect(true|false), root CarReader, root LoadCar slow+batch); events_observed counts reader executions; non-trivial = every case (each holds ≥1 section)",
+		Rule:        "cases = (seeded small valid archive, container kind, mutation family); family cuts = EVERY proper prefix of the archive, family flips = every byte with one seeded bit (quick) or all 8 bits (thorough), family random = 200 random mutations (hash oracle only); plus archives holding one section of 1 MiB+4 KiB / 2 MiB-1 / 2 MiB / 3 MiB (3- and 4-byte length varints) with every offset outside that block and ~30 sampled offsets inside it; each mutated input goes through 15 scanning readers (three of them with ZeroLengthSectionAsEOF on) (v2 BlockReader.Next on 3 source kinds, SkipNext on 2, Inspect(true|false), root CarReader, root LoadCar slow+batch); events_observed counts reader executions; non-trivial = every case (each holds ≥1 section)",
 		Assumptions: []string{"reference section table (refcar) decides where a cut/flip lands", "hashes recomputed with Go stdlib/x-crypto", "cuts at a section boundary and cuts after the end of a CARv2 payload are exempt from the truncation clause, as the property states"},
 		Gen:         genC02,
 		Run:         runC02,
